@@ -26,6 +26,10 @@ func init() {
 func runC01(c *Ctx) {
 	c10LengthWord(c, c.Root(), "C01.body")
 	c15DecodeResult(c, c.Root(), "C01.body")
+	// what Parse hands the uploader is what the file holds: metadata values untrimmed, every record kept
+	c.R.As(map[string]string{"C06.faithful": "C01.metadata"}, func() {
+		c06Shape(c, c.Root(), c.Root().Func("internal/counter", "Parse"))
+	})
 
 	m := c.Root()
 	c01Gate(c, m)
@@ -383,6 +387,27 @@ func c01TablesAs(c *Ctx, m *Module, pfx string) {
 			}
 		}
 		r.Check(pfx+".table-provenance", "accessor "+meth+" reads "+tbl, m.Pos(fn.Pos()), okRead && len(got) == 1, fmt.Sprintf("accessor %s must read exactly table %s; reads %v", meth, tbl, got))
+		// … and answers with what the table says, nothing else: every result is the looked-up value,
+		// or the constant the look-up was just found to equal
+		nEx := 0
+		for _, ex := range exitPaths(fn) {
+			nEx++
+			v := strip(refine(ex.vals[0], ex.facts))
+			isLk := func(x ssa.Value) bool {
+				l, ok := strip(x).(*ssa.Lookup)
+				if !ok || l.CommaOk {
+					return false
+				}
+				_, f, ok := fieldLoad(l.X)
+				return ok && f == tbl
+			}
+			okV := isLk(v)
+			if k, isC := constOf(v); isC && (k == "true" || k == "false") {
+				okV = hasFact(ex.facts, func(fc Fact) bool { return isLk(fc.Cond) && fc.Pol == (k == "true") })
+			}
+			r.Check(pfx+".table-provenance", fmt.Sprintf("accessor %s result #%d is the table's answer", meth, nEx), m.Pos(ex.ret.Pos()), okV,
+				"an accessor answers with the looked-up value (an empty or missing table approves nothing); got "+shortDesc(describe(v)))
+		}
 	}
 	// only NewConfig writes the tables
 	for _, fn := range m.PkgFuncs("internal/config") {
